@@ -236,6 +236,10 @@ theorem applyCmd_allOK (s : St) (c : Cmd) (hc : isCleanup c = false) :
   case removeComp e ty => exact ⟨[], by split <;> rfl, allOK_nil⟩
   case ewrInsertLocal e wr v => exact ⟨[], by split <;> rfl, allOK_nil⟩
   case ewrCleanupData sys e wr => exact ⟨[], by split <;> (try split) <;> rfl, allOK_nil⟩
+  case ewrAdd e wr v sys =>
+    split
+    · exact ⟨_, rfl, allOK_flush_batch (cleanList_cons rfl (cleanList_cons rfl cleanList_nil))⟩
+    · exact ⟨[], rfl, allOK_nil⟩
 
 theorem enqueue_clean (s : St) (a : Act) : cleanList (enqueue s a).2 := by
   cases a <;> simp only [enqueue] <;> (try split) <;> (try split) <;>
